@@ -160,12 +160,13 @@ def sample(cvecs, scalar_func, dtype):
     return out
 
 
-def axis_points(cvec, outside=True, far=False, cells=()):
+def axis_points(cvec, outside=True, far=False, cells=(), unit=1.0):
     """Evaluation points of one axis, simplest first.
 
     nodes, cell midpoints (ties of the nearest scheme), quarter points and -- outside the hull
     -- points a quarter and a half neighbouring node spacing out (``far``: also exactly one
-    spacing out, where the documented virtual zero node sits).
+    spacing out, where the documented virtual zero node sits).  ``unit``: the length that
+    stands for a node spacing on an axis with a single node.
     """
     c = [float(v) for v in cvec]
     n = len(c)
@@ -177,7 +178,7 @@ def axis_points(cvec, outside=True, far=False, cells=()):
         if n >= 2:
             h0, h1 = c[1] - c[0], c[n - 1] - c[n - 2]
         else:
-            h0 = h1 = 1.0
+            h0 = h1 = float(unit)
         fr = [0.5, 0.25] + ([1.0] if far else []) + list(cells)     # cells: far outside
         for q in fr:
             pts += [c[0] - q * h0, c[n - 1] + q * h1]
@@ -197,3 +198,42 @@ def is_tie(cvec, t):
             h = c[i + 1] - c[i]
             return abs((t - c[i]) - (c[i + 1] - t)) <= 1e-9 * h
     return False
+
+
+def transform(nodes, scale=1.0, offset=0.0):
+    """The image ``offset + scale * v`` of every node, or None if an image is rounded.
+
+    Interpolation weights only depend on ratios of lengths, so they are invariant under this
+    map; it is used to move a grid into another magnitude regime (tiny or huge units, far from
+    the origin) WITHOUT changing the exactness of the arithmetic.
+    """
+    out = []
+    for v in nodes:
+        t = float(offset) + float(scale) * float(v)
+        if Fraction(t) != _fr(offset) + _fr(scale) * _fr(v):
+            return None
+        out.append(t)
+    return out
+
+
+def orderings(n, inside):
+    """Orders in which the ``n`` points of one mesh vector / point list can be passed.
+
+    ``inside``: one bool per point (inside the hull of the nodes).  name -> permutation (list of
+    indices into the given order).  The value at a point does not depend on its position in
+    the vector, so the result is the permuted reference.
+    """
+    idx = list(range(n))
+    ins = [i for i in idx if inside[i]]
+    outs = [i for i in idx if not inside[i]]
+    half = len(ins) // 2
+    res = {
+        'reversed': idx[::-1],
+        # first and last entry inside the hull, the outside points in between
+        'outside in the middle': ins[:half] + outs + ins[half:],
+        # first entries outside, last inside -- and the other way round is 'given'
+        'outside first': outs + ins,
+        'rotated': idx[n // 2:] + idx[:n // 2],
+        'interleaved': idx[::2] + idx[1::2],
+    }
+    return {k: v for k, v in res.items() if v != idx}
